@@ -22,6 +22,7 @@ CONSTANTS
   PauseKeepsRegistered = FALSE
   RejoinPausedNoAvail = TRUE
   ResetSeparate = TRUE
+  JumpToFirstAvailable = TRUE
 SPECIFICATION Spec
 VIEW View
 INVARIANTS C03_NoLostWake C04_BitsTrueWhenCalm
